@@ -278,7 +278,7 @@ def shrink(ctx, case_line, differs):
     return cur
 
 
-def compare(ctx, rows, proj, what, oracle=None, nontrivial=None, max_report=3, oracle_is_property=False):
+def compare(ctx, rows, proj, what, oracle=None, nontrivial=None, max_report=3, oracle_is_property=False, recheck=0):
     """diff projected results; group disagreements by operator; shrink and report.
     `proj(resdict) -> comparable`, `oracle(case_line, go_resdict) -> None | message`."""
     bad = {}
@@ -301,6 +301,24 @@ def compare(ctx, rows, proj, what, oracle=None, nontrivial=None, max_report=3, o
             if msg:
                 op = re.search(r'\bop=(\S+)', c)
                 orc.setdefault((op.group(1) if op else '?', msg.split(':')[0]), []).append((c, g, msg))
+    if recheck and bad:
+        # kinds that observe goroutines / wall-clock grace periods: a disagreement must reproduce when the case
+        # is run again alone (a loaded machine can stretch a grace period once; a defect does it every time)
+        transient = 0
+        for op in list(bad):
+            keep = []
+            for c, g, l in bad[op][:50]:
+                again = [r for _ in range(recheck) for r in replay_cases(ctx, [c])]
+                if again and all(proj(parse_res(gg)) != proj(parse_res(ll)) for _, gg, ll in again):
+                    keep.append((c, g, l))
+                else:
+                    transient += 1
+            if keep:
+                bad[op] = keep
+            else:
+                del bad[op]
+        if transient:
+            ctx.notes.append(f'{what}: {transient} transient disagreement(s) did not reproduce on re-run (machine load)')
     n = 0
     for op, lst in bad.items():
         if n >= max_report:
